@@ -8,7 +8,7 @@ import (
 
 // weights of the op kinds of a generated history (intent-encoded: every op is valid in every state)
 type hWeights struct {
-	deliver, ack, ackidx, save, savefail, savebegin, saveend, crash, rebalance, ackold, end, scrape, savequeue int
+	deliver, ack, ackidx, save, savefail, savebegin, saveend, crash, rebalance, ackold, end, scrape, savequeue, failover int
 	absorbed                                                                                                   int // percentage of deliveries that are non-document / internal-key events
 	outside                                                                                                    int // per-mille of deliveries placed outside their snapshot (C06)
 	reopenFail                                                                                                 int // per-mille of transient ends whose first reopen attempt is refused
@@ -49,6 +49,7 @@ func genHistory(t *rapid.T, w hWeights) hScenario {
 	add("end", w.end)
 	add("scrape", w.scrape)
 	add("savequeue", w.savequeue)
+	add("failover", w.failover)
 	opGen := rapid.Custom(func(t *rapid.T) hOp {
 		k := rapid.SampledFrom(kinds).Draw(t, "op")
 		op := hOp{Op: k}
@@ -92,6 +93,8 @@ func genHistory(t *rapid.T, w hWeights) hScenario {
 			op.Snap = rapid.IntRange(0, 9).Draw(t, "which")
 		case "ackold":
 			op.N = rapid.IntRange(0, 63).Draw(t, "i")
+		case "failover":
+			op.Vb = rapid.IntRange(0, nvb-1).Draw(t, "vb")
 		case "end":
 			op.Vb = rapid.IntRange(0, nvb-1).Draw(t, "vb")
 			op.Kind = rapid.SampledFrom(endCauseNames).Draw(t, "cause")
